@@ -40,6 +40,9 @@ def facts():
     for f in d["funcs"]:
         if f["Entry"]:
             lines.append("entry %s [%s]" % (f["Name"], ls(f["Entry"])))
+        if f.get("EntryConds"):
+            # history facts that hold at every call of the context (propagated across calls, re-checked by Coq)
+            lines.append("entryfacts %s [%s]" % (f["Name"], " && ".join(f["EntryConds"])))
     return sorted(lines), out
 
 
